@@ -47,6 +47,9 @@ SmokeTerms == {
   TRValue(5, TRStr(1, StartM \o <<A>> \o EndM)), TRValue(5, Obj(1, {"SF"})), TRValue(5, Obj(1, {"ST", "SV"})), TRValue(5, Obj(1, {"REG"})), TRValue(5, Obj(1, {"ER", "NILP"})),
   TRValue(5, TStruct(9, <<TInt(1, 1), TSafe(3, TStr(2, P(2)))>>, <<FALSE, TRUE>>)), TRValue(5, TPtrTo(10, TStruct(9, <<TInt(1, 1)>>, <<FALSE>>))),
   TUnsafe(6, TRValue(5, TStr(1, P(1)))), TSafe(6, TRValue(5, TInt(1, 4))),
+  \* reflect.Values obtained through an unexported field (not interfaceable)
+  TRValueRO(5, TRStr(1, StartM \o <<A>> \o EndM \o <<A>>)), TRValueRO(5, TRBytes(1, <<A>> \o StartM \o <<A>> \o EndM)), TRValueRO(5, TStr(1, P(1))),
+  TRValueRO(5, TInt(1, 9)), TRValueRO(5, TSStr(1, P(1))), TSafe(6, TRValueRO(5, TStr(1, P(1)))), TUnsafe(6, TRValueRO(5, TRStr(1, StartM \o <<A>> \o EndM))),
   Obj(1, {"SF"}), Obj(1, {"SM"}), Obj(1, {"SV"}), Obj(1, {"ER"}), Obj(1, {"FM"}), Obj(1, {"GS"}), Obj(1, {"ST"}), Obj(1, {"REG"}), Obj(1, {}),
   Obj(1, {"SF", "SM", "ER", "FM", "ST"}), Obj(1, {"SM", "ER", "FM"}), Obj(1, {"ER", "ST", "GS"}), Obj(1, {"ST", "SV"}),
   Obj(1, {"ST", "NILP"}), Obj(1, {"SF", "NILP"}), Obj(1, {"ER", "REG"}),
@@ -61,7 +64,9 @@ SmokeTerms == {
   TUnsafe(3, TObj(1, {"FM"}, <<>>, <<SDiscover, SPrintf(<<A>> \o Fd \o Fs, <<TInt(4, 1), TSafe(6, TStr(5, P(5)))>>)>>, <<>>, <<>>)),   \* F3
   TObj(1, {"FM"}, <<>>, <<SWrite(P(2)), SDiscover, SSafeString(<<A>>), SPrint(<<TInt(3, 3)>>)>>, <<>>, <<>>)
 }
-SmokeFormats == {Fv, Fs, Fd, FplusV, FsharpV, F5v, FT, Fq, Fw, LitF(<<A, 32>>, Fv) \o <<32, A>>, FZ, Fm8d}
+\* (two literals that end in a rune whose last byte is that of the end marker, right before the operand: n.º, ₺)
+SmokeFormats == {Fv, Fs, Fd, FplusV, FsharpV, F5v, FT, Fq, Fw, LitF(<<A, 32>>, Fv) \o <<32, A>>, FZ, Fm8d,
+                 <<110, 194, 186>> \o Fv, <<226, 130, 186>> \o Fd \o <<194, 186>>}
 SmokeRoots == SmokeTerms
 SmokeExpand(t) == {Case("Sprintf", f, <<t>>, <<>>) : f \in SmokeFormats}
                   \cup {Case("Sprint", <<>>, <<t>>, <<>>), Case("Sprint", <<>>, <<TInt(90, 1), t, TStr(91, P(91)), t>>, <<>>),
@@ -358,9 +363,8 @@ Expand(r) == CASE Slice = "smoke" -> SmokeExpand(r)
 VARIABLE root
 allvars == <<c, lvl, root>>
 
-Init == lvl = 0 /\ c = NoCase /\ root \in Roots
-Next == lvl = 0 /\ lvl' = 1 /\ root' = root /\ c' \in Expand(root)
-Spec == Init /\ [][Next]_allvars
+\* (Init / Next / Spec over Roots and Expand live in PSpec.tla: a module that extends this one without needing them --
+\*  MCCompose -- is spared TLC's start-up level analysis of three more definitions that reach every slice)
 
 Run(k) == CASE k.e = "Sprintf"  -> Sprintf(k.f, k.ts)
             [] k.e = "Sprintln" -> Sprintln(k.ts)
